@@ -121,6 +121,8 @@ class Sym:
             return o
         if o.op == "k":
             if o.a == 0:
+                if self.op == "k" and self.a == 0:
+                    return NAN
                 return SymInf(self)
             if self.op == "k":
                 return Sym("k", Fraction(self.a) / o.a)
@@ -221,6 +223,8 @@ class Sym:
 
     # ---- comparisons go to the decision oracle (paths.py installs it)
     def _cmp(self, o, rel):
+        if isinstance(o, SymNaN):
+            return rel == "!="
         if _is_inf(o):
             pos = o > 0
             return {"<": pos, "<=": pos, ">": not pos, ">=": not pos, "==": False, "!=": True}[rel]
@@ -264,6 +268,15 @@ class Sym:
 
 ZERO = Sym("k", 0)
 ONE = Sym("k", 1)
+
+
+def _clear_shared_constants():
+    # module-level constants are shared between runs with different contexts: drop their cached values
+    ZERO.val = None
+    ONE.val = None
+
+
+alg.RESET_HOOKS.append(_clear_shared_constants)
 DIVLOG = []  # every non-constant divisor met during a symbolic run (well-definedness obligations)
 DIV_EXEMPT = [0]  # > 0 while the real assign_norm_cont runs: its radicand is positive by the trusted
 #                   precondition "a contraction is not the zero function"
@@ -317,6 +330,33 @@ class SymInf:
     __float__ = _no
 
 
+class SymNaN:
+    """0/0 with both operands canonically zero: not-a-number; propagates through arithmetic, every
+    comparison is False.  An obligation that meets it fails (the real code returns nan there)."""
+
+    def _same(self, *a):
+        return self
+
+    __add__ = __radd__ = __sub__ = __rsub__ = __mul__ = __rmul__ = __truediv__ = __rtruediv__ = __neg__ = __pow__ = __abs__ = _same
+    sqrt = exp = log = conjugate = _same
+
+    def _false(self, o):
+        return False
+
+    __lt__ = __le__ = __gt__ = __ge__ = __eq__ = _false
+
+    def __ne__(self, o):
+        return True
+
+    __hash__ = object.__hash__
+
+    def __repr__(self):
+        return "SymNaN"
+
+
+NAN = SymNaN()
+
+
 def _is_inf(o):
     return isinstance(o, (float, _np.floating)) and o in (float("inf"), float("-inf"))
 
@@ -366,6 +406,8 @@ def lift(o):
     """coerce an operand to a Sym node; ndarrays are declined so that numpy broadcasts"""
     if isinstance(o, Sym):
         return o
+    if isinstance(o, (SymNaN, SymInf)):
+        return NotImplemented
     if isinstance(o, SymFloat):
         return o.node
     if isinstance(o, bool):
@@ -768,7 +810,10 @@ class SymNumpy(types.ModuleType):
         self.newaxis = None
 
     def __getattr__(self, name):
-        return getattr(_np, name)
+        attr = getattr(_np, name)
+        if callable(attr) and not isinstance(attr, type) and name not in ("errstate", "seterr", "geterr"):
+            return _retagging(attr)
+        return attr
 
     # ---- creation: float buffers become object buffers of exact constants
     def _filled(self, shape, dtype, k):
@@ -959,6 +1004,36 @@ class SymNumpy(types.ModuleType):
         if is_symbolic(x):
             return _np.ones(_np.shape(x), dtype=bool)
         return _np.isfinite(x, *a, **k)
+
+
+def _retag(r):
+    """object-dtype results of forwarded numpy functions stay SymArrays (so that `.dtype == float` checks in
+    gbasis see what they see in production)"""
+    if type(r) is _np.ndarray and _DT.__get__(r) == object:
+        return r.view(SymArray)
+    if isinstance(r, tuple):
+        return tuple(_retag(x) for x in r)
+    if isinstance(r, list):
+        return [_retag(x) for x in r]
+    return r
+
+
+_RETAG_CACHE = {}
+
+
+def _retagging(fn):
+    w = _RETAG_CACHE.get(fn)
+    if w is None:
+        def w(*a, **k):
+            return _retag(fn(*a, **k))
+
+        w.__name__ = getattr(fn, "__name__", "numpy_function")
+        w.__wrapped__ = fn
+        try:
+            _RETAG_CACHE[fn] = w
+        except TypeError:
+            pass
+    return w
 
 
 def _close_default(x, y):
